@@ -66,6 +66,7 @@ type nhSM struct {
 	jit     uint32
 	closed  bool
 	durable bool // on-disk flavour
+	hold    int32 // next Lookup sleeps this many milliseconds
 }
 
 func (c *nhCluster) newSM(h *nhHost, kind string, shard uint64, replica uint64) *nhSM {
@@ -210,7 +211,18 @@ func (s *nhRegularSM) Update(e sm.Entry) (sm.Result, error) {
 }
 func (s *nhRegularSM) Lookup(q interface{}) (interface{}, error) {
 	s.enter("Lookup", nil)
+	if ms := atomic.SwapInt32(&s.hold, 0); ms > 0 {
+		time.Sleep(time.Duration(ms) * time.Millisecond)
+	}
 	s.jitter(300)
+	if s.c.slowUs > 0 {
+		// an occasional long query: it may still be running when the shard is stopped
+		d := s.c.slowUs / 10
+		if atomic.LoadUint32(&s.jit)%8 == 0 {
+			d = s.c.slowUs * 3
+		}
+		time.Sleep(time.Duration(d) * time.Microsecond)
+	}
 	a, err := s.lookup(q)
 	s.exit("Lookup", nil)
 	return a, err
